@@ -397,6 +397,30 @@ fn c04_run(mut cmd: Command<Effect, Event>) -> String {
     r.unwrap_or_else(|_| "PANIC".to_string())
 }
 
+/// stream -> then_request: the request for the second item is made only after the first one's was answered
+fn c04_stream_then_request() -> String {
+    let r = std::panic::catch_unwind(|| {
+        let mut cmd: Command<Effect, Event> =
+            Command::stream_from_shell(Op(40)).then_request(|v| Command::request_from_shell(Op(v))).then_send(|v: u8| Event::Got(v.wrapping_add(100)));
+        let mut take = |cmd: &mut Command<Effect, Event>| -> Vec<Request<Op>> { cmd.effects().filter_map(|e| if let Effect::Op(r) = e { Some(r) } else { None }).collect() };
+        let mut stream = take(&mut cmd);
+        let first: Vec<u8> = stream.iter().map(|r| r.operation.0).collect();
+        // two items arrive before anything else is answered
+        let _ = stream[0].resolve(41);
+        let _ = stream[0].resolve(42);
+        let mut inflight = take(&mut cmd);
+        let two: Vec<u8> = inflight.iter().map(|r| r.operation.0).collect();
+        let _ = inflight[0].resolve(5);
+        let mut next = take(&mut cmd);
+        if !next.is_empty() {
+            let _ = next[0].resolve(6);
+        }
+        let evs: Vec<u8> = cmd.events().map(|e| if let Event::Got(v) = e { v } else { 255 }).collect();
+        format!("first={first:?} after-two-items={two:?} answered-in-order={evs:?}")
+    });
+    r.unwrap_or_else(|_| "PANIC".to_string())
+}
+
 fn ev(v: u8) -> Command<Effect, Event> {
     Command::event(Event::Got(v))
 }
@@ -423,6 +447,8 @@ fn c04_scenarios() -> Vec<(&'static str, String, &'static str)> {
         ("typed-c04-map-event", c04_run(req(10).then(ev(1)).map_event(|e| if let Event::Got(v) = e { Event::Got(v + 100) } else { e })), "e[10]v[];e[]v[105, 101] done=true"),
         ("typed-c04-map-event-identity", c04_run(req(10).and(note(20)).map_event(|e| e)), "e[10, 20]v[];e[]v[5] done=true"),
         ("typed-c04-map-effect", c04_run(req(10).and(ev(3)).map_effect(|e| match e { Effect::Op(mut r) => { r.operation = Op(r.operation.0 + 1); Effect::Op(r) } other => other })), "e[11]v[3];e[]v[5] done=true"),
+        ("typed-c04-then-right-nested", c04_run(ev(1).then(ev(2).then(ev(3)))), "e[]v[1, 2, 3] done=true"),
+        ("typed-c04-stream-then-request", c04_stream_then_request(), "first=[40] after-two-items=[41] answered-in-order=[105, 106]"),
         ("typed-c04-nested", c04_run(Command::all([req(10).then(req(12)), ev(1).then(req(11))]).then(note(22))), "e[10, 11]v[1];e[12]v[5, 6];e[22]v[7] done=true"),
     ]
 }
